@@ -1,10 +1,14 @@
 SPECIFICATION Spec
 CONSTANTS
-  Constructs = {"map", "pp", "pfe", "worker", "pbuf", "split", "buffer", "merge", "gen", "multiread", "chain", "mslices", "msiters", "bufchan", "dtmap", "adtmap"}
+  Constructs = {"map", "pp", "pfe", "worker", "pbuf", "pbufg", "split", "buffer", "merge", "gen", "multiread", "chain", "mslices", "msiters", "bufchan", "dtmap", "adtmap"}
   MaxN = 8
   MaxK = 4
   AllowStop = TRUE
   RaceReps = 0
+  FillReps = 0
+  MaxBurst = 2
+  BurstReps = 10
+  Opts = {"", "e", "p", "c", "ep", "ec", "pc", "epc"}
   Depth = 30
 INVARIANT Inv
 CONSTRAINT EmitAll
